@@ -543,3 +543,38 @@ Example C08_comp_seek_overflow_witnesses :
   snd (cseek 256 toy_dec (Cursor []) c (FromCur (2 ^ 63 - 1))) = Crash 495 /\
   snd (cseek 256 toy_dec (Cursor []) c (FromEnd (- 2 ^ 63))) = Crash 529.
 Proof. vm_compute. split; reflexivity. Qed.
+
+(* ---------- Tie A, decision logic (tools/src2v2.py -> gen/Src2.v): footer length compared before use, block reader loops instead of recursing, Empty state refused ---------- *)
+From MLA Require SrcTie2b SrcTie2Events.
+Check SrcTie2Events.footer_order.
+Theorem C08_tie_footer_order : ltac:(let t := type of SrcTie2Events.footer_order in exact t).
+Proof. exact SrcTie2Events.footer_order. Qed.
+Print Assumptions C08_tie_footer_order.
+Check SrcTie2Events.bfr_read_shape_facts.
+Theorem C08_tie_bfr_read_shape_facts : ltac:(let t := type of SrcTie2Events.bfr_read_shape_facts in exact t).
+Proof. exact SrcTie2Events.bfr_read_shape_facts. Qed.
+Print Assumptions C08_tie_bfr_read_shape_facts.
+Check SrcTie2Events.move_to_next_block_order.
+Theorem C08_tie_move_to_next_block_order : ltac:(let t := type of SrcTie2Events.move_to_next_block_order in exact t).
+Proof. exact SrcTie2Events.move_to_next_block_order. Qed.
+Print Assumptions C08_tie_move_to_next_block_order.
+Check SrcTie2Events.comp_seek_empty_guard.
+Theorem C08_tie_comp_seek_empty_guard : ltac:(let t := type of SrcTie2Events.comp_seek_empty_guard in exact t).
+Proof. exact SrcTie2Events.comp_seek_empty_guard. Qed.
+Print Assumptions C08_tie_comp_seek_empty_guard.
+Check SrcTie2b.try_from_refuses_iff.
+Theorem C08_tie_try_from_refuses_iff : ltac:(let t := type of SrcTie2b.try_from_refuses_iff in exact t).
+Proof. exact SrcTie2b.try_from_refuses_iff. Qed.
+Print Assumptions C08_tie_try_from_refuses_iff.
+Check SrcTie2Events.EV_bfr_read_shape.
+Theorem C08_tie_EV_bfr_read_shape : ltac:(let t := type of SrcTie2Events.EV_bfr_read_shape in exact t).
+Proof. exact SrcTie2Events.EV_bfr_read_shape. Qed.
+Print Assumptions C08_tie_EV_bfr_read_shape.
+Check SrcTie2Events.EV_footer_deserialize_from_shape.
+Theorem C08_tie_EV_footer_deserialize_from_shape : ltac:(let t := type of SrcTie2Events.EV_footer_deserialize_from_shape in exact t).
+Proof. exact SrcTie2Events.EV_footer_deserialize_from_shape. Qed.
+Print Assumptions C08_tie_EV_footer_deserialize_from_shape.
+Check SrcTie2Events.EV_comp_seek_shape.
+Theorem C08_tie_EV_comp_seek_shape : ltac:(let t := type of SrcTie2Events.EV_comp_seek_shape in exact t).
+Proof. exact SrcTie2Events.EV_comp_seek_shape. Qed.
+Print Assumptions C08_tie_EV_comp_seek_shape.
